@@ -398,7 +398,7 @@ class Gen:
             return out
         if r < 0.32:
             # rebind / augmented assignment of an existing variable (only names owned by this function scope)
-            own = [x for x in scope["own"] if scope["vars"].get(x, ("fn",))[0] != "fn" and x not in scope["unassigned"]] if "own" in scope else []
+            own = [x for x in sorted(scope["own"]) if scope["vars"].get(x, ("fn",))[0] != "fn" and x not in scope["unassigned"]] if "own" in scope else []
             if own:
                 x = self.pick(own)
                 t = scope["vars"][x]
